@@ -158,6 +158,30 @@ func (e *Env) eval(x *SExpr) Term {
 		return n.eval(x.Args[0])
 	case "field":
 		return e.field(x)
+	case "addr":
+		// &base.f for a pointer base: the same abstract interior pointer the encoder gives a FieldAddr value
+		a := x.Args[0]
+		if a.Op != "field" {
+			e.fail("& needs a field selector, got %s", a)
+		}
+		base := e.eval(a.Args[0])
+		st, named, isPtr := derefStruct(base.T)
+		if st == nil || !isPtr {
+			e.fail("& needs a field of a pointer to a struct (%s)", a)
+		}
+		for i := 0; i < st.NumFields(); i++ {
+			if st.Field(i).Name() == a.Name {
+				fn := "faddr_" + mangle(typeKey(named))
+				if len(fn) > 70 {
+					fn = fn[:70]
+				}
+				fn += fmt.Sprintf("_%d", i)
+				fe.pre.decl(fmt.Sprintf("(declare-fun %s (Int) Int)", fn))
+				return Term{fmt.Sprintf("(%s %s)", fn, base.S), SInt, types.NewPointer(st.Field(i).Type())}
+			}
+		}
+		e.fail("type %v has no field %s", base.T, a.Name)
+		return Term{}
 	case "index":
 		return e.index(x)
 	case "slice":
